@@ -95,7 +95,7 @@ class Runner(object):
         self.nviol = 0
         self.prefix = ''
 
-    def conv(self, cfg, P, R, script, rtox=None, timeout=8, release=True, kind='random', ini=None, tgt=None, hist=None, reuse=None):
+    def conv(self, cfg, P, R, script, rtox=None, timeout=8, release=True, kind='random', ini=None, tgt=None, hist=None, reuse=None, model=True):
         ck = self.ck
         script = [tuple(x) for x in script]
         o = air.conversation(cfg, P, R, script, rtox=rtox, ini_timeout=timeout, release=release, ini=ini, tgt=tgt)
@@ -105,9 +105,10 @@ class Runner(object):
             # the same Initiator and / or Target object went through these conversations before (each after a new activation)
             case['reuse'], case['history'] = reuse, hist
         self.prefix = 'reactivated-%s:' % reuse if hist else ''
-        self.lines.append(model_line(cfg, P, R, script, rtox, timeout, release))
-        self.impl.append(impl_line(o))
-        self.meta.append((kind, case))
+        if model:           # (scripts with the fates B / P / E are outside the model: monitor only)
+            self.lines.append(model_line(cfg, P, R, script, rtox, timeout, release))
+            self.impl.append(impl_line(o))
+            self.meta.append((kind, case))
         nfaults = sum(1 for f in script if f != ('D', 'D'))
         chained = any(len(p) > o['ini_miu'] for p in P) or any(len(r) > (o['tgt_miu'] or 1) for r in R)
         ck.case((sorted(cfg.items(), key=str), case['payloads'], case['responses'], case['script'], rtox, timeout, release, reuse, repr(hist)),
@@ -168,6 +169,15 @@ class Runner(object):
                     self.viol('crash:%s:%s' % (side, x.split()[1]),
                                  '%s application got %s instead of a CommunicationError' % (side, x.split()[1]),
                                  dict(case, ini=o['ini'], tgt=o['tgt']))
+        # every exchange() returns data / None or raises a CommunicationError, within a bounded number of frontend calls;
+        # a frontend that reports BrokenLinkError (RF field gone) is not polled any further
+        for side, res in (('initiator', o['ini']), ('target', o['tgt'] + o['tgt_rtox'])):
+            if 'blocks' in res:
+                self.viol('blocks:' + side, '%s went on calling the frontend more than %d times' % (side, air.CALL_BOUND), dict(case, ini=o['ini'], tgt=o['tgt']))
+        n = o.get('tgt_calls_after_broken_link')
+        if n is not None and o.get('tgt_activated') and (n > 1 or 'err BrokenLinkError' not in o['tgt'] + o['tgt_rtox']):
+            self.viol('broken-link-not-reported:target', 'the frontend raised BrokenLinkError at the target: %d further frontend calls, '
+                      'Target.exchange ended with %s' % (n, (o['tgt'] or ['nothing'])[-1]), dict(case, tgt=o['tgt']))
         if 'ini_deactivate' in o:
             self.viol('crash:deactivate', 'Initiator.deactivate raised ' + o['ini_deactivate'], case)
         # transparent recovery of absorbable scripts
@@ -176,7 +186,7 @@ class Runner(object):
         # response; a corrupted response is then not recoverable by design: RTOX answered to NAK is a protocol error)
         fr = flat_rtox(rtox)
         per = [len(air.rtox_values(rtox, k)) for k in range(len(rtox or []))]
-        absorbable = sparse(script) and ((not fr and timeout >= 2) or
+        absorbable = sparse(script) and all(x in 'DLC' for f in script for x in f) and ((not fr and timeout >= 2) or
                                          (fr and timeout >= 60 and max(per) <= 3 and not any(f == ('D', 'C') for f in script)))
         if valid_cfg and len(R) >= len(P) and absorbable:
             exact = o['ini'] == exp_i[:len(P)] and o['tgt'][:len(P)] == exp_t
@@ -402,6 +412,24 @@ def main():
             c1 = {'cfg': cfg_(), 'P': [b'\x61' * 70, b'\x62'], 'R': [b'\xd1', b'\xd2'], 'script': s1, 'release': rng.choice([True, None])}
             c2 = {'cfg': cfg_(did=3), 'P': [b'\x71', b'\x72'], 'R': [b'\xe1' * 65, b'\xe2']}
             run.history([c1, c2], reuse)
+    run.flush()
+
+    # ---------------- every CommunicationError subclass of nfc.clf (instances of the classes of the tree under test) at every
+    # frontend call of BOTH roles: T = TimeoutError (L), X = TransmissionError (C), P = ProtocolError, B = BrokenLinkError
+    # (persistent at the target: the RF field stays off), E = the base class.  Monitor only (the model has D / L / C).
+    for cfg in (cfg_(), cfg_(brty='106A', did=3)):
+        Pf = [b'\x21' * 62, b'\x22']
+        Rf = [b'\x91' * 63, b'\x92']
+        o = run.conv(cfg, Pf, Rf, [], kind='nofault')
+        nr = rounds_of(o) + 1
+        for pos in range(nr):
+            for fate in 'LCPBE':
+                for which in (0, 1):
+                    f = (fate, 'D') if which == 0 else ('D', fate)
+                    run.conv(cfg, Pf, Rf, [('D', 'D')] * pos + [f], kind='fault-family', model=fate in 'LC',
+                             timeout=rng.choice([3, 8, 130]), release=rng.choice([True, None]))
+                    if fate in 'PE':       # twice in a row
+                        run.conv(cfg, Pf, Rf, [('D', 'D')] * pos + [f, f], kind='fault-family', model=False)
     run.flush()
 
     # ---------------- exhaustive fault scripts for short conversations
